@@ -282,3 +282,18 @@ Qed.
 Example rook_d4 : rookAttacks 27%N (N.lor (bit 43%N) (bit 29%N)) =
   fold_left N.lor (map bit [26; 25; 24; 28; 29; 35; 43; 19; 11; 3]%N) 0%N.
 Proof. vm_compute. reflexivity. Qed.
+
+Theorem rays_all : forall s t occ, (s < 64)%N ->
+  ((t < 64)%N -> (N.testbit (rookAttacks s occ) t = true <->
+              rookAligned s t = true /\ N.land (squaresBetween s t) occ = 0%N)) /\
+  ((t < 64)%N -> (N.testbit (bishopAttacks s occ) t = true <->
+              bishopAligned s t = true /\ N.land (squaresBetween s t) occ = 0%N)) /\
+  (N.testbit (rookAttacks s occ) t = true -> (t < 64)%N) /\
+  (N.testbit (bishopAttacks s occ) t = true -> (t < 64)%N).
+Proof.
+  intros s t occ Hs. split; [|split; [|split]].
+  - intro Ht. apply rookAttacks_spec; assumption.
+  - intro Ht. apply bishopAttacks_spec; assumption.
+  - apply rookAttacks_in_board; assumption.
+  - apply bishopAttacks_in_board; assumption.
+Qed.
